@@ -113,6 +113,25 @@ def compare_cli(case, end, last, res):
     return None
 
 
+def isolation_selftest(work_prefix):
+    """the parent must survive a hanging, an aborting and a panicking case and attribute each to the right input"""
+    ok_src = "fn main() -> i32\n{\n\treturn: 1\n}\n"
+    mk = lambda i, kind: {"id": i, "kind": kind, "wasm": False, "mods": [{"name": "s.pn", "src": ok_src}]}
+    cases = [mk("s0", "selftest:ok"), mk("s1", "selftest:hang"), mk("s2", "selftest:ok"), mk("s3", "selftest:abort"),
+             mk("s4", "selftest:panic"), mk("s5", "selftest:ok")]
+    cpath, epath = work_prefix + "-iso-cases.ndjson", work_prefix + "-iso-events.ndjson"
+    common.write_ndjson(cpath, cases)
+    pc.pvh(["run", cpath, epath, "--timeout", "1", "--batch", "6"], timeout=300)
+    ends = {}
+    for inp, evs, _ in pc.grouped_events(epath):
+        end, last = pc.end_of(evs)
+        ends[inp["id"]] = (end, (last or {}).get("signal"))
+    os.remove(cpath)
+    os.remove(epath)
+    return {"isolation_hang_abort_panic_attributed": ends == {"s0": ("success", None), "s1": ("hang", None), "s2": ("success", None),
+                                                              "s3": ("crash", 6), "s4": ("panic", None), "s5": ("success", None)}}
+
+
 def selftests(rep, meta, work_prefix):
     """corrupt recordings; every corruption must be rejected by TLC"""
     events = pc.paths(meta)["events"]
@@ -308,6 +327,7 @@ def run(rep, tier, seed, selftest):
         (len(todo), len(anomalies), n_cli_bad))
     if selftest:
         self_results.update(selftests(rep, meta, prefix))
+        self_results.update(isolation_selftest(prefix))
         log("[selftest] %s" % json.dumps(self_results))
         for name, ok in self_results.items():
             if not ok:
